@@ -37,6 +37,11 @@ def run(tier):
     recs = pc.run_programs(d, "progs", programs, builds, ts_syntax=True)
     fails = pc.judge_obs(PID, "ObsC03.cfg", recs, "c03", "repository + generated programs", stats, d)
     pc.replay_known_findings(PID, "ObsC03.cfg", d, builds)
+    # rule level: spec/TypeRules.tla's enumerated terms — a well-typed term must compile, validate and evaluate to the
+    # value the specification computes (type soundness is model-checked on the rules; here it is observed on the code)
+    import typerules
+    tfails, tcov = typerules.run_typerules(tier, outdir("typerules"), {}, only={"C03", "C01"})
+    fails += tfails
     cen = pc.census(recs)
     ends = {}
     for r in recs:
@@ -57,6 +62,7 @@ def run(tier):
         "builds": [f"opt:{b}" for b in builds], "census": cen, "endings": ends,
         "trace_states_checked_by_tlc": stats.get("tlc_states", 0),
     }
+    coverage.update(tcov)
     write_evidence(PID, tier, "exploration", coverage,
                    ["wasm_interp classifies traps as a WasmGC engine would; validity = wasmparser's validator with GC features",
                     "'syntactically valid TypeScript' is approximated by the type eraser accepting the text and node --check of the erased text",
@@ -66,6 +72,9 @@ def run(tier):
 
 
 def replay(path):
+    if json.load(open(path)).get("kind") == "typerules-term":
+        import typerules
+        return typerules.replay(path)
     case = json.load(open(path))["case"]
     p = case["program"]
     p["with_std"] = case.get("with_std", True)
